@@ -1059,10 +1059,17 @@ func (m *Manager) ChangePassphrase(ns walletdb.ReadWriteBucket, oldPassphrase,
 			return maybeConvertDbError(err)
 		}
 
-		// Now that the db has been successfully updated, clear the old
-		// key and set the new one.
-		m.masterKeyPub.Zero()
-		m.masterKeyPub = newMasterKey
+		// The database transaction these writes belong to can still be
+		// rolled back by its owner (the wallet changes the private
+		// passphrase within the same transaction), so only clear the
+		// old key and set the new one once it has been committed.
+		ns.Tx().OnCommit(func() {
+			m.mtx.Lock()
+			defer m.mtx.Unlock()
+
+			m.masterKeyPub.Zero()
+			m.masterKeyPub = newMasterKey
+		})
 	}
 
 	return nil
